@@ -506,3 +506,63 @@ def differential(check, ops, impl_bin, oracle, signature=None, scope=None, neigh
     check.cov.setdefault("correspondence_disagreements", 0)
     check.cov["correspondence_disagreements"] += len(mism)
     return {"impl": impl, "model": model, "mismatches": mism}
+
+
+def differential_blocks(check, blocks, impl_bin, oracle_block, label="histories", impl_env=None, shrink=True):
+    """Stateful engines: `blocks` is a list of op lists, each a self-contained history (it starts with
+    the op that resets the engine's state).  Both sides run whole blocks; lines are compared one by
+    one; `oracle_block(ops, impl_lines)` returns a list of (index, message, signature) property
+    failures observed on the implementation's answers."""
+    groups = chunked(blocks, NCPU * 2)
+
+    def run_group(g):
+        text = "\n".join("\n".join(b) for b in g) + "\n"
+        n = sum(len(b) for b in g)
+        rc, il, ierr = run_lines(impl_bin, text, env_extra=impl_env)
+        crashed = None
+        if rc != 0 or len(il) != n:
+            rc, il, ierr = run_lines(impl_bin, text, env_extra=dict(impl_env or {}, VH_FLUSH="1"))
+            crashed = (rc, ierr[-1500:], len(il))
+            il = (il + ["<crash>"] * n)[:n]
+        rc2, ml, merr = run_model(text)
+        if rc2 != 0 or len(ml) != n:
+            raise SystemExit(f"infrastructure error: model driver failed rc={rc2} lines={len(ml)}/{n} {merr[-500:]}")
+        return il, ml, crashed
+
+    results = run_parallel(run_group, groups)
+    n_ops = 0
+    n_mis = 0
+    first_mis = None
+    prop_fail = 0
+    out = []
+    for g, (il, ml, crashed) in zip(groups, results):
+        pos = 0
+        for b in g:
+            a = il[pos:pos + len(b)]
+            m = ml[pos:pos + len(b)]
+            pos += len(b)
+            n_ops += len(b)
+            out.append((b, a, m))
+            fails = oracle_block(b, a)
+            for idx, msg, sig in fails[:3]:
+                prop_fail += 1
+                check.fail(f"property oracle fails on the implementation at step {idx} of a history: {msg}",
+                           {"history": b[:idx + 1], "impl": a[:idx + 1], "model": m[:idx + 1], "oracle": msg}, signature=sig, found=True)
+            if a != m:
+                k = next(i for i in range(len(b)) if a[i] != m[i])
+                n_mis += 1
+                if first_mis is None:
+                    first_mis = {"history": b[:k + 1], "impl": a[:k + 1], "model": m[:k + 1]}
+        if crashed is not None:
+            check.fail(f"harness terminated abnormally (rc={crashed[0]}) while running {label}", {"stderr_tail": crashed[1]},
+                       signature="harness-crash:" + label, found=True)
+    if n_mis and not prop_fail:
+        check.fail(f"correspondence model/implementation broke on {n_mis} of {len(blocks)} {label}; first divergence: "
+                   f"`{first_mis['history'][-1]}` impl=`{first_mis['impl'][-1]}` model=`{first_mis['model'][-1]}`",
+                   {"correspondence": label, "first": first_mis}, found=False)
+    check.cov["evaluations"] += n_ops
+    check.cov.setdefault("histories", 0)
+    check.cov["histories"] += len(blocks)
+    check.cov.setdefault("correspondence_disagreements", 0)
+    check.cov["correspondence_disagreements"] += n_mis
+    return out
